@@ -205,7 +205,8 @@ def generate(rng, tier):
     fe = "repl" if rng.random() < 0.3 else "eval"
     if fe == "repl":
         for o in ops:
-            o.pop("extra", None)   # the :macros argument belongs to hy.eval only
+            if o["op"] != "mx":
+                o.pop("extra", None)   # the :macros argument belongs to hy.eval only
     return {"ops": ops, "fe": fe}
 
 
@@ -606,6 +607,11 @@ def shrink(desc):
     if desc.get("fe") == "repl":
         yield dict(desc, fe="eval")
     for i, op in enumerate(ops):
+        if op["op"] == "mx":
+            for j in range(len(op["names"])):
+                if len(op["names"]) > 1:
+                    yield dict(desc, ops=ops[:i] + [dict(op, names=op["names"][:j] + op["names"][j + 1:])] + ops[i + 1:])
+            continue
         if op.get("extra"):
             yield dict(desc, ops=ops[:i] + [{k: v for k, v in op.items() if k != "extra"}] + ops[i + 1:])
         for st in _simpler(op["stmts"]):
